@@ -16,6 +16,7 @@ func init() {
 		classes:  []string{"os", "os-alloc", "rs", "rs-alloc", "rs-park", "rs-park"},
 		gen:      c14Gen,
 		exec:     c14Exec,
+		valid:    c14Valid,
 		maxSteps: 60000,
 	})
 }
@@ -225,4 +226,27 @@ func c14Size(p string) int {
 		}
 	}
 	return 0
+}
+
+// c14Valid: the oracle assumes reads inside the initial content and writes beyond it.
+func c14Valid(sc *vfScenario) bool {
+	if !vfValidSessionProgram(sc) {
+		return false
+	}
+	file := map[int]string{}
+	for _, op := range sc.Ops {
+		switch op.K {
+		case "open":
+			file[op.H] = op.P
+		case "write":
+			if op.Off < 200 {
+				return false
+			}
+		case "read":
+			if op.N < 1 || int(op.Off)+op.N > c14Size(file[op.H]) {
+				return false
+			}
+		}
+	}
+	return true
 }
